@@ -63,3 +63,68 @@ Example T08_example :
   accept_spec None [([1], []); ([1], []); ([1; 0], []); ([0; 255], []); ([1; 0; 0], []); ([], [])]
   = [true; false; true; false; true; false].
 Proof. reflexivity. Qed.
+
+(* ------------------------------------------------------------------------------------------------
+   T08f: "mtbl_writer_init never opens an existing path: it returns NULL and leaves that file
+   untouched".  model/OpenModel.v interprets the flag list that gen/Consts.v scrapes from the open()
+   call of mtbl_writer_init on every run (WRITER_OPEN_FLAGS); the statement tie tie_writer_init
+   (Ties_C08) shows the function does nothing but `open; if (fd < 0) return NULL; init_fd; close'.
+   For EVERY file system and EVERY path that names anything - a regular file, an empty one, a
+   symbolic link (dangling or not), a directory - the open fails and the file system is the same
+   value afterwards; on a path naming nothing the file is created empty and nothing else changes. *)
+From Coq Require Import String.
+From Mtbl Require Import model.OpenModel.
+
+Theorem T08f_init_refuses_existing : forall fs p n, fs_get fs p = Some n ->
+  writer_init_path fs p = (OpenFail, fs).
+Proof.
+  intros fs p n H. unfold writer_init_path, posix_open. rewrite H. reflexivity.
+Qed.
+Print Assumptions T08f_init_refuses_existing.
+
+Lemma fs_get_set_same : forall fs p n, fs_get (fs_set fs p n) p = Some n.
+Proof.
+  induction fs as [|[q m] rest IH]; intros p n; cbn [fs_set fs_get].
+  - rewrite String.eqb_refl. reflexivity.
+  - destruct (String.eqb p q) eqn:E; cbn [fs_get]; rewrite E; [reflexivity|apply IH].
+Qed.
+
+Lemma fs_get_set_other : forall fs p q n, p <> q -> fs_get (fs_set fs p n) q = fs_get fs q.
+Proof.
+  induction fs as [|[r m] rest IH]; intros p q n Hne; cbn [fs_set fs_get].
+  - destruct (String.eqb q p) eqn:E; [apply String.eqb_eq in E; congruence|reflexivity].
+  - destruct (String.eqb p r) eqn:E; cbn [fs_get].
+    + apply String.eqb_eq in E. subst r.
+      destruct (String.eqb q p) eqn:E2; [apply String.eqb_eq in E2; congruence|reflexivity].
+    + destruct (String.eqb q r); [reflexivity|apply IH; exact Hne].
+Qed.
+
+Theorem T08f_init_creates_fresh : forall fs p, fs_get fs p = None ->
+  exists fs', writer_init_path fs p = (OpenOk p, fs') /\
+    fs_get fs' p = Some (NReg []) /\ (forall q, q <> p -> fs_get fs' q = fs_get fs q).
+Proof.
+  intros fs p H. exists (fs_set fs p (NReg [])).
+  unfold writer_init_path, posix_open, open_resolved. rewrite H. cbn.
+  split; [reflexivity|]. split; [apply fs_get_set_same|].
+  intros q Hq. apply fs_get_set_other. congruence.
+Qed.
+Print Assumptions T08f_init_creates_fresh.
+
+(* the statement is about the flags: without O_EXCL (or without O_CREAT next to it) the same model
+   opens - and truncates - the existing file; so a change of the flag list breaks T08f *)
+Example T08f_flags_matter :
+  posix_open ["O_WRONLY"; "O_CREAT"; "O_TRUNC"]%string [("t"%string, NReg [1; 2])] "t"
+  = (OpenOk "t"%string, [("t"%string, NReg [])]) /\
+  posix_open ["O_WRONLY"; "O_CREAT"; "O_TRUNC"]%string [("l"%string, NLink "t"); ("t"%string, NReg [1; 2])] "l"
+  = (OpenOk "t"%string, [("l"%string, NLink "t"); ("t"%string, NReg [])]) /\
+  writer_init_path [("l"%string, NLink "t")] "l" = (OpenFail, [("l"%string, NLink "t")]).
+Proof. repeat split. Qed.
+
+(* the reader opens read-only: no flag that creates or truncates *)
+Theorem T08f_reader_open_changes_nothing : forall fs p, snd (reader_init_path fs p) = fs.
+Proof.
+  intros fs p. unfold reader_init_path, posix_open, open_resolved. cbn.
+  destruct (fs_get fs p) as [[c|t|]|]; cbn; try reflexivity.
+  destruct (fs_get fs t) as [[c|t'|]|]; reflexivity.
+Qed.
+Print Assumptions T08f_reader_open_changes_nothing.
